@@ -30,8 +30,9 @@ var builtin = []string{
 }
 
 // isIDValid checks if a name is a valid identifier in Go.
+// The blank identifier cannot be used as a package name.
 func isIDValid(name string) bool {
-	return idRegex.MatchString(name) && !generic.AnyMatch(builtin, func(s string) bool {
+	return name != "_" && idRegex.MatchString(name) && !generic.AnyMatch(builtin, func(s string) bool {
 		return s == name
 	})
 }
